@@ -15,6 +15,23 @@ func Fixtures(r *Run) {
 	}
 	fmt.Printf("fixtures: %d recorded, %d compared, %d outside the modelled domain, %d rejected\n",
 		len(sessions), res.Checked, res.Undef, len(res.Bad))
-	r.Cov["evaluations"] = len(sessions)
-	r.Cov["distinct_nontrivial"] = len(sessions)
+	// the same corpus through the FILE route: real bkl on the fixture's files, the
+	// layers meaning what the independent decoders read from them
+	ls, lnames, skipped := fixtureLayouts(RepoDir())
+	var fsess []Sess
+	var fnames []string
+	for i, l := range ls {
+		if s, ok := runSession(r, l, false); ok {
+			fsess = append(fsess, s)
+			fnames = append(fnames, lnames[i])
+		}
+	}
+	fres, _ := r.ValidateWithCodecs("FIXFILES", fsess)
+	for _, b := range fres.Bad {
+		fmt.Printf("fixture (file route) %s: event %d: %s\n", fnames[b.Session], b.Event, b.Why)
+	}
+	fmt.Printf("fixtures through the file route: %d run, %d events compared, %d outside the modelled domain, %d rejected; skipped: %v\n",
+		len(fsess), fres.Checked, fres.Undef, len(fres.Bad), skipped)
+	r.Cov["evaluations"] = len(sessions) + len(fsess)
+	r.Cov["distinct_nontrivial"] = len(sessions) + len(fsess)
 }
